@@ -29,6 +29,7 @@ structure Live (sk : Skeleton) : Prop where
   invokeOutside : sk.clInvokeOutsideLock = true   -- CallClosure unlocks closuresLock before it calls the closure
   panicSites : sk.panicSitesCanonical = true      -- the stub panics only on failures of the link, never on an outcome of the call
   freeNeverWaits : sk.clFreeNeverWaits = true     -- the deferred release of a call's closures waits for nobody
+  storesCreated : sk.clStoresCreatedClosure = true -- the table holds the closure's wrapper itself: invocations are not serialised
 
 theorem run_cons (sk : Skeleton) {s s1 s' : State} {a : Act} {as : List Act}
     (h1 : step sk s a = some s1) (h2 : run sk s1 as = some s') : run sk s (a :: as) = some s' := by
@@ -208,7 +209,7 @@ theorem callStart_enabled (c x numOut n : Nat) (hp : (s.calls c).pc = .absent) (
 /-- `CallClosure`'s look-up never waits for the body of another invocation -/
 theorem closureInvoke_enabled (q id : Nat) : (step sk s (.closureInvoke q id)).isSome = true := by
   obtain ⟨hc, _, _⟩ := alive sk hv hr
-  simp [step, hc, cl_free sk hv hr]
+  simp [step, hc, hv.storesCreated, cl_free sk hv hr]
 
 /-- on a closed table `Receive` is refused: the stub panics with `ErrClosed` -/
 theorem callReceive_refused (c : Nat) (hp : (s.calls c).pc = .marshalled) (hcl : s.bc.closed = true) :
